@@ -1054,3 +1054,67 @@ func scenInstallCrash(x *Ctx) {
 }
 
 func init() { Registry["w2.installcrash"] = scenInstallCrash }
+
+// scenStaleInstall: a lagging follower receives a snapshot (whole-log replacement) from a leader whose term is
+// newer than the snapshot's last included term; that leader dies before the follower appends anything; the other
+// voter's log ends in the older term but holds committed (and applied) entries beyond the snapshot. The follower
+// must not win the election on the strength of its boundary entry (C01, C07, C11).
+func scenStaleInstall(x *Ctx) {
+	r := x.R
+	all, a, ok := x.startStatic(3)
+	if !ok {
+		return
+	}
+	thr := x.C.Opts.FSM.SnapThreshold
+	if thr <= 0 {
+		x.Inconclusive("needs snapshots")
+		return
+	}
+	bc := x.others(a)
+	b, c := bc[0], bc[1]
+	x.Step("isolate %s; %s and %s move on and snapshot", c, a, b)
+	x.C.Net.Partition([]string{c}, []string{a, b})
+	x.Writes(1, a, 2*thr+2+r.Intn(4), time.Second)
+	// b takes over in a newer term, but its entries never reach a
+	x.C.Net.AddRule(&simnet.Rule{Name: "b-cannot-replicate-to-a", Drop: true, Match: func(m *mon.Msg, reply bool) bool {
+		return !reply && m.Kind != "RV" && m.From == b && m.To == a
+	}})
+	x.Step("isolate leader %s until %s leads in a newer term", a, b)
+	x.C.Net.Partition([]string{a}, []string{b})
+	// b needs a vote: a's outbound is cut by the partition, so let vote traffic through via c? no: reconnect c to b only
+	x.C.Net.ClearLinks()
+	x.C.Net.Partition([]string{a}, []string{c})
+	x.C.Net.CutOneWay([]string{a}, []string{b}) // a's heartbeats do not reach b; b's vote requests reach a
+	if !x.WaitFor(8*x.ET()+time.Second, func() bool {
+		s := x.C.Node(b).Sample()
+		return s != nil && s.State == "leader"
+	}) {
+		x.Inconclusive("%s did not take over", b)
+		return
+	}
+	x.Step("%s leads; it installs its snapshot on %s; then it dies", b, c)
+	// wait until c has installed (its applied index jumps) but has appended nothing yet: stop b's appends to c
+	x.C.Net.AddRule(&simnet.Rule{Name: "no-appends-to-c", Drop: true, Match: func(m *mon.Msg, reply bool) bool {
+		return !reply && m.Kind == "AE" && m.To == c && len(m.Ents) > 0
+	}})
+	if !x.WaitFor(4*time.Second, func() bool {
+		s := x.C.Node(c).Sample()
+		return s != nil && s.LII > 0
+	}) {
+		x.Inconclusive("%s did not install a snapshot", c)
+		return
+	}
+	x.C.Node(b).Crash("stale-install")
+	x.C.Node(b).WaitDown(time.Second)
+	x.Step("only %s and %s are left; heal between them", a, c)
+	x.C.Net.Heal()
+	if l := x.C.WaitLeaderAmong([]string{a, c}, 8*x.ET()+2*time.Second); l != "" {
+		x.Writes(3, l, 3, time.Second)
+	}
+	x.NT("stale-install")
+	_ = all
+	x.C.Node(b).Restart()
+	x.finishDirected()
+}
+
+func init() { Registry["w2.staleinstall"] = scenStaleInstall }
